@@ -111,6 +111,20 @@ func fmtArg(fr *frame, a value, verb byte) []value {
 		if verb == 'x' {
 			return hexOfInt(v.t, 1)
 		}
+		if verb == 'o' && v.t.Sort.W == 8 {
+			// a byte in octal: up to three digits, leading zeros dropped unless padded by the caller (%03o)
+			d2 := term.ZExt(8, term.Extract(7, 6, v.t))
+			d1 := term.ZExt(8, term.Extract(5, 3, v.t))
+			d0 := term.ZExt(8, term.Extract(2, 0, v.t))
+			ch := func(d *term.Term) value { return byteVal(term.Bin("bvadd", d, term.Const(8, '0'))) }
+			if Branch(term.Not(term.Eq(d2, term.Const(8, 0)))) {
+				return []value{ch(d2), ch(d1), ch(d0)}
+			}
+			if Branch(term.Not(term.Eq(d1, term.Const(8, 0)))) {
+				return []value{ch(d1), ch(d0)}
+			}
+			return []value{ch(d0)}
+		}
 		return decimalOf(v)
 	case bool:
 		return toBytes(fmt.Sprint(v))
